@@ -2,7 +2,7 @@ SPECIFICATION Spec
 CONSTANTS
   AttrPrefixes = {"-"}
   KeyPrefixes = {"#"}
-  FieldSeps = {":", "|"}
+  FieldSeps = {":", "|", "::"}
   ArraySizes = {0}
   ActiveFns = {"SetFieldSeparator"}
   ActiveOps = {"query", "upd"}
